@@ -1619,9 +1619,7 @@ class ProductSpaceArrayWeighting(ArrayWeighting):
                                       'exponent != 2 (got {})'
                                       ''.format(self.exponent))
 
-        inners = np.fromiter(
-            (x1i.inner(x2i) for x1i, x2i in zip(x1, x2)),
-            dtype=x1[0].space.dtype, count=len(x1))
+        inners = np.array([x1i.inner(x2i) for x1i, x2i in zip(x1, x2)])
 
         inner = np.dot(inners, self.array)
         if is_real_dtype(x1[0].dtype):
@@ -1727,9 +1725,7 @@ class ProductSpaceConstWeighting(ConstWeighting):
                                       'exponent != 2 (got {})'
                                       ''.format(self.exponent))
 
-        inners = np.fromiter(
-            (x1i.inner(x2i) for x1i, x2i in zip(x1, x2)),
-            dtype=x1[0].space.dtype, count=len(x1))
+        inners = np.array([x1i.inner(x2i) for x1i, x2i in zip(x1, x2)])
 
         inner = self.const * np.sum(inners)
         return x1.space.field.element(inner)
